@@ -403,6 +403,16 @@ def run_sweep(case, ctx):
         hist_fp = history_hash(c.h)
         hist_common.history_labels(c.h, ctx)
         meta_files = ["dataset_info.json"] + c.lists
+        shard_files = list(c.shards)
+        if not case.get("dense"):
+            # quick tier: the description, two lists (deepest first) and three
+            # shards per dataset are swept completely; thorough sweeps all
+            lists = sorted(c.lists, key=lambda r: (-r.count("/"), r))
+            k = case["bitseed"] % max(len(lists), 1)
+            lists = (lists[k:] + lists[:k])[:2]
+            meta_files = ["dataset_info.json"] + lists
+            k = case["bitseed"] % max(len(shard_files), 1)
+            shard_files = (shard_files[k:] + shard_files[:k])[:3]
         for rel in meta_files:
             role = "info" if rel == "dataset_info.json" else "list"
             size = (c.root / rel).stat().st_size
@@ -438,7 +448,7 @@ def run_sweep(case, ctx):
                 for other in c.lists:
                     one_fault(c, ctx, rel, role, "foreign", 0, 0, b"", other,
                               None, hist_fp)
-        for rel in c.shards:
+        for rel in shard_files:
             size = (c.root / rel).stat().st_size
             offs = set(range(min(256, size))) | set(
                 range(max(0, size - 256), size)) | set(range(0, size, 37))
@@ -484,7 +494,7 @@ STAGES = [
           run=run_sweep,
           strategy=lambda tier: strategy_sweep(tier),
           examples={
-              "quick": 8,
+              "quick": 16,
               "thorough": 64
           },
           fork=True,
